@@ -315,7 +315,7 @@ theorem wf_step {s : St} (h : WFSt s) (op : Op) : WFSt (step s op).1 := by
       have hx := h.vars v hv
       have hc := h.bcs _ hx.bc
       have h1 : WFSt { setBC s s.nB (s.bcs (s.vars v).bc) with nB := s.nB + 1 } := wf_pushBC h hc
-      refine wf_pushVar h1 ⟨Nat.lt_succ_self _, hx.interior, hx.ghostI, hx.ghostB, hc, ?_⟩
+      refine wf_pushVar h1 ⟨Nat.lt_succ_self _, hx.interior, hx.ghostI, hx.ghostB, hx.applied, ?_⟩
       intro c e; cases e; exact hc
     · exact h
   | arith v =>
@@ -453,11 +453,12 @@ theorem postExplicit_nB (s : St) (b : Nat) : (postExplicit s b).nB = s.nB := rfl
 
 /-! ### per-variable invariants -/
 
-/-- the variable created by `.copy v` -/
+/-- the variable created by `.copy v`: ghost stamps, snapshot and `value.modified` are carried
+    over from the original, the boundary terms are built from the (deep-copied) BC object -/
 def copyVar (s : St) (v : Nat) : Var :=
   { bc := s.nB, interior := (s.vars v).interior, ghostI := (s.vars v).ghostI,
     ghostB := (s.vars v).ghostB, cache := some (s.bcs (s.vars v).bc).content,
-    applied := (s.bcs (s.vars v).bc).content, valMod := false, precalc := true }
+    applied := (s.vars v).applied, valMod := (s.vars v).valMod, precalc := true }
 
 /-- the state after the BC object of `.newVarDefault` was created -/
 def withDefaultBC (s : St) : St :=
@@ -606,142 +607,6 @@ theorem varInv_step {P : Var → Prop}
       · exact hM _ _ _ _
       · exact h u (by omega)
     · rw [step_invalid_arith hv]; exact h
-
-
-
-/-! ### the invariants of property C09 -/
-
-/-- the cached boundary terms were built from the snapshot `_BCs_applied` -/
-def CacheV (x : Var) : Prop := x.precalc = true → x.cache = some x.applied
-
-/-- unless the values were edited, the ghost layer was computed from the current interior and
-    the snapshot `_BCs_applied` -/
-def GhostV (x : Var) : Prop := x.valMod = false → x.ghostI = x.interior ∧ x.ghostB = x.applied
-
-def CacheInv (s : St) : Prop := VarInv CacheV s
-def GhostInv (s : St) : Prop := VarInv GhostV s
-
-/-- cached boundary terms of a variable that is not flagged outdated reflect the CURRENT content
-    of its (possibly shared) BC object -/
-def CacheOK (s : St) : Prop :=
-  ∀ v, v < s.nV → (s.vars v).precalc = true → outdated s (s.vars v) = false →
-    (s.vars v).cache = some (s.bcs (s.vars v).bc).content
-
-/-- the ghost layer of a variable that is not flagged outdated reflects its current interior and
-    the current content of its BC object -/
-def GhostOK (s : St) : Prop :=
-  ∀ v, v < s.nV → outdated s (s.vars v) = false →
-    (s.vars v).ghostI = (s.vars v).interior ∧ (s.vars v).ghostB = (s.bcs (s.vars v).bc).content
-
-instance (s : St) : Decidable (CacheOK s) := by unfold CacheOK; infer_instance
-instance (s : St) : Decidable (GhostOK s) := by unfold GhostOK; infer_instance
-
-theorem outdated_eq_false {s : St} {x : Var} (h : outdated s x = false) :
-    (s.bcs x.bc).modified = false ∧ x.valMod = false ∧ x.applied = (s.bcs x.bc).content := by
-  unfold outdated at h
-  have h' : ((s.bcs x.bc).modified = false ∧ x.valMod = false) ∧ x.applied = (s.bcs x.bc).content := by
-    simpa [Bool.or_eq_false_iff] using h
-  exact ⟨h'.1.1, h'.1.2, h'.2⟩
-
-theorem outdated_of_applied_ne {s : St} {x : Var} (h : x.applied ≠ (s.bcs x.bc).content) :
-    outdated s x = true := by
-  cases hh : outdated s x
-  · exact absurd (outdated_eq_false hh).2.2 h
-  · rfl
-
-theorem cacheOK_of_cacheInv {s : St} (h : CacheInv s) : CacheOK s := by
-  intro v hv hp ho
-  rw [h v hv hp, (outdated_eq_false ho).2.2]
-
-theorem ghostOK_of_ghostInv {s : St} (h : GhostInv s) : GhostOK s := by
-  intro v hv ho
-  have ho := outdated_eq_false ho
-  have := h v hv ho.2.1
-  exact ⟨this.1, this.2.trans ho.2.2⟩
-
-theorem cacheV_applyVar (c : Nat) (x : Var) : CacheV (applyVar c x) := by
-  intro hp
-  have hp' : x.precalc = true := hp
-  simp only [applyVar, hp', if_true]
-
-theorem cacheV_mkVar (s : St) (b i : Nat) (p : Bool) : CacheV (mkVar s b i p) := by
-  intro hp
-  have hp' : p = true := hp
-  simp only [mkVar, hp', if_true]
-
-theorem cacheInv_step {s : St} (op : Op) (h : CacheInv s) : CacheInv (step s op).1 :=
-  varInv_step cacheV_applyVar cacheV_mkVar (fun _ _ hx => hx) (fun _ _ hx => hx) op
-    (fun _ _ _ _ _ => rfl) h
-
-theorem ghostV_applyVar (c : Nat) (x : Var) : GhostV (applyVar c x) := fun _ => ⟨rfl, rfl⟩
-theorem ghostV_mkVar (s : St) (b i : Nat) (p : Bool) : GhostV (mkVar s b i p) := fun _ => ⟨rfl, rfl⟩
-
-/-- `.copy v` is harmless for the ghost layer when `v` carries no un-applied value edit and its
-    snapshot `_BCs_applied` is the current content of its BC object -/
-def CopyClean (s : St) : Op → Prop
-  | .copy v => v < s.nV →
-      (s.vars v).valMod = false ∧ (s.vars v).applied = (s.bcs (s.vars v).bc).content
-  | _ => True
-
-/-- the weaker condition of the task statement: only un-applied value edits are excluded -/
-def CopyValueClean (s : St) : Op → Prop
-  | .copy v => v < s.nV → (s.vars v).valMod = false
-  | _ => True
-
-instance (s : St) (o : Op) : Decidable (CopyClean s o) := by
-  cases o <;> unfold CopyClean <;> infer_instance
-instance (s : St) (o : Op) : Decidable (CopyValueClean s o) := by
-  cases o <;> unfold CopyValueClean <;> infer_instance
-
-/-- side condition along a history started in `s`: every `.copy` is `CopyClean` -/
-def NoCopyOfDirtyFrom : St → List Op → Prop
-  | _, [] => True
-  | s, o :: os => CopyClean s o ∧ NoCopyOfDirtyFrom (step s o).1 os
-
-def NoCopyOfValueDirtyFrom : St → List Op → Prop
-  | _, [] => True
-  | s, o :: os => CopyValueClean s o ∧ NoCopyOfValueDirtyFrom (step s o).1 os
-
-instance : (s : St) → (os : List Op) → Decidable (NoCopyOfDirtyFrom s os)
-  | _, [] => isTrue trivial
-  | s, o :: os =>
-    have := instDecidableNoCopyOfDirtyFrom (step s o).1 os
-    by unfold NoCopyOfDirtyFrom; infer_instance
-
-instance : (s : St) → (os : List Op) → Decidable (NoCopyOfValueDirtyFrom s os)
-  | _, [] => isTrue trivial
-  | s, o :: os =>
-    have := instDecidableNoCopyOfValueDirtyFrom (step s o).1 os
-    by unfold NoCopyOfValueDirtyFrom; infer_instance
-
-def NoCopyOfDirty (ops : List Op) : Prop := NoCopyOfDirtyFrom init ops
-def NoCopyOfValueDirty (ops : List Op) : Prop := NoCopyOfValueDirtyFrom init ops
-instance (ops : List Op) : Decidable (NoCopyOfDirty ops) := by unfold NoCopyOfDirty; infer_instance
-instance (ops : List Op) : Decidable (NoCopyOfValueDirty ops) := by
-  unfold NoCopyOfValueDirty; infer_instance
-
-theorem ghostInv_step {s : St} (op : Op) (hc : CopyClean s op) (h : GhostInv s) :
-    GhostInv (step s op).1 := by
-  refine varInv_step ghostV_applyVar ghostV_mkVar ?_ ?_ op ?_ h
-  · intro x n _ hv; cases hv
-  · intro x y _ hv; cases hv
-  · intro v e hv hx _
-    subst e
-    have := hc hv
-    have hx := hx this.1
-    exact ⟨hx.1, hx.2.trans this.2⟩
-
-theorem preSolve_cache {s : St} {v : Nat} (h : CacheV (s.vars v)) :
-    ((preSolve s v).vars v).cache = some (s.bcs (s.vars v).bc).content := by
-  unfold preSolve; split
-  · rw [applyBCs_vars', if_pos rfl]; simp only [setVar, ↓reduceIte, applyVar]
-  · next hp =>
-    have hp' : (s.vars v).precalc = true := by simpa using hp
-    split
-    · rw [applyBCs_vars', if_pos rfl]; simp only [applyVar, hp', ↓reduceIte]
-    · next ho =>
-      have ho' : outdated s (s.vars v) = false := by simpa using ho
-      rw [h hp', (outdated_eq_false ho').2.2]
 
 
 
@@ -972,28 +837,6 @@ theorem inv_run {I : St → Prop} (h0 : I init) (hstep : ∀ s op, I s → I (st
 theorem wf_init : WFSt init :=
   ⟨fun _ hb => absurd hb (Nat.not_lt_zero _), fun _ hv => absurd hv (Nat.not_lt_zero _)⟩
 
-theorem ghostInv_runFrom : ∀ (ops : List Op) (s : St), NoCopyOfDirtyFrom s ops → GhostInv s →
-    GhostInv (runFrom s ops)
-  | [], _, _, h => h
-  | o :: os, s, hc, h => ghostInv_runFrom os (step s o).1 hc.2 (ghostInv_step o hc.1 h)
-
-/-- interior half of the ghost-layer invariant (needs only `CopyValueClean`) -/
-def GhostIV (x : Var) : Prop := x.valMod = false → x.ghostI = x.interior
-
-theorem ghostIV_step {s : St} (op : Op) (hc : CopyValueClean s op) (h : VarInv GhostIV s) :
-    VarInv GhostIV (step s op).1 := by
-  refine varInv_step (fun _ _ _ => rfl) (fun _ _ _ _ _ => rfl) ?_ ?_ op ?_ h
-  · intro x n _ hv; cases hv
-  · intro x y _ hv; cases hv
-  · intro v e hv hx _
-    subst e
-    exact hx (hc hv)
-
-theorem ghostIV_runFrom : ∀ (ops : List Op) (s : St), NoCopyOfValueDirtyFrom s ops →
-    VarInv GhostIV s → VarInv GhostIV (runFrom s ops)
-  | [], _, _, h => h
-  | o :: os, s, hc, h => ghostIV_runFrom os (step s o).1 hc.2 (ghostIV_step o hc.1 h)
-
 /-! ### more projections -/
 
 theorem step_newVar_bcs {s : St} {b : Nat} (hb : b < s.nB) : (step s (.newVar b)).1.bcs = s.bcs := by
@@ -1006,8 +849,232 @@ theorem step_copy_bcs {s : St} {v : Nat} (hv : v < s.nV) (b : Nat) :
     (step s (.copy v)).1.bcs b = if b = s.nB then s.bcs (s.vars v).bc else s.bcs b := by
   simp only [step, if_pos hv]; rfl
 
-/-- the output of a solve, given only that the cached terms of `v` match its snapshot -/
-theorem solve_out_of_cacheV {s : St} {v : Nat} (hv : v < s.nV) (h : CacheV (s.vars v)) :
+
+/-! ### contents of BC objects only ever change to a fresh stamp -/
+
+theorem postSolve_content (s : St) (v b : Nat) :
+    ((postSolve s v).bcs b).content = (s.bcs b).content := by
+  rw [postSolve_bcs]; split
+  · next h => subst h; rfl
+  · rfl
+
+theorem postExplicit_content (s : St) (b b' : Nat) :
+    ((postExplicit s b).bcs b').content = (s.bcs b').content := by
+  rw [postExplicit_bcs]; split
+  · next h => subst h; rfl
+  · rfl
+
+/-- the content of a live BC object after one op is the old content or the fresh stamp -/
+theorem step_content {s : St} (op : Op) {b : Nat} (hb : b < s.nB) :
+    ((step s op).1.bcs b).content = (s.bcs b).content ∨
+    ((step s op).1.bcs b).content = s.next := by
+  have hne : ¬ b = s.nB := Nat.ne_of_lt hb
+  cases op with
+  | newBC => left; simp only [step, setBC, if_neg hne]
+  | newVar b' => left; simp only [step]; split <;> rfl
+  | newVarDefault => left; simp only [step, setBC, setVar, if_neg hne]
+  | editBC b' =>
+    simp only [step]; split
+    · simp only [setBC]; split
+      · exact Or.inr rfl
+      · exact Or.inl rfl
+    · exact Or.inl rfl
+  | editBCSilent b' =>
+    simp only [step]; split
+    · simp only [setBC]; split
+      · exact Or.inr rfl
+      · exact Or.inl rfl
+    · exact Or.inl rfl
+  | editVal v => left; simp only [step]; split <;> rfl
+  | updateValue v w => left; simp only [step]; split <;> rfl
+  | applyBCs v =>
+    left; simp only [step]; split
+    · exact applyBCs_content s v b
+    · rfl
+  | solve v =>
+    left
+    by_cases hv : v < s.nV
+    · rw [step_solve hv, postSolve_content, preSolve_content]
+    · rw [step_invalid_solve hv]
+  | solveExplicit v =>
+    left
+    by_cases hv : v < s.nV
+    · rw [step_solveExplicit hv, postExplicit_content, preExplicit_content]
+    · rw [step_invalid_solveExplicit hv]
+  | copy v =>
+    left
+    by_cases hv : v < s.nV
+    · rw [step_copy_bcs hv, if_neg hne]
+    · rw [step_invalid_copy hv]
+  | arith v =>
+    left; simp only [step]; split
+    · simp only [setBC, setVar, if_neg hne]
+    · rfl
+
+/-! ### the invariants of property C09 -/
+
+/-- the cached boundary terms were built from the snapshot `_BCs_applied` (true of every
+    variable that was just constructed or just applied its BCs) -/
+def CacheV (x : Var) : Prop := x.precalc = true → x.cache = some x.applied
+
+/-- the cached boundary terms were built from the snapshot `_BCs_applied`, or the snapshot is
+    not the current content of the BC object (so the variable is flagged outdated and the cache
+    will be rebuilt before it is used).  The second alternative arises for a `copy()` of an
+    outdated variable: its cache is built from the current BC copy, its snapshot is carried over
+    from the original. -/
+def CacheS (s : St) (x : Var) : Prop :=
+  x.precalc = true → x.cache = some x.applied ∨ x.applied ≠ (s.bcs x.bc).content
+
+/-- unless the values were edited, the ghost layer was computed from the current interior and
+    the snapshot `_BCs_applied` -/
+def GhostV (x : Var) : Prop := x.valMod = false → x.ghostI = x.interior ∧ x.ghostB = x.applied
+
+def CacheInv (s : St) : Prop := ∀ v, v < s.nV → CacheS s (s.vars v)
+def GhostInv (s : St) : Prop := VarInv GhostV s
+
+/-- cached boundary terms of a variable that is not flagged outdated reflect the CURRENT content
+    of its (possibly shared) BC object -/
+def CacheOK (s : St) : Prop :=
+  ∀ v, v < s.nV → (s.vars v).precalc = true → outdated s (s.vars v) = false →
+    (s.vars v).cache = some (s.bcs (s.vars v).bc).content
+
+/-- the ghost layer of a variable that is not flagged outdated reflects its current interior and
+    the current content of its BC object -/
+def GhostOK (s : St) : Prop :=
+  ∀ v, v < s.nV → outdated s (s.vars v) = false →
+    (s.vars v).ghostI = (s.vars v).interior ∧ (s.vars v).ghostB = (s.bcs (s.vars v).bc).content
+
+instance (s : St) : Decidable (CacheOK s) := by unfold CacheOK; infer_instance
+instance (s : St) : Decidable (GhostOK s) := by unfold GhostOK; infer_instance
+
+theorem outdated_eq_false {s : St} {x : Var} (h : outdated s x = false) :
+    (s.bcs x.bc).modified = false ∧ x.valMod = false ∧ x.applied = (s.bcs x.bc).content := by
+  unfold outdated at h
+  have h' : ((s.bcs x.bc).modified = false ∧ x.valMod = false) ∧ x.applied = (s.bcs x.bc).content := by
+    simpa [Bool.or_eq_false_iff] using h
+  exact ⟨h'.1.1, h'.1.2, h'.2⟩
+
+theorem outdated_of_applied_ne {s : St} {x : Var} (h : x.applied ≠ (s.bcs x.bc).content) :
+    outdated s x = true := by
+  cases hh : outdated s x
+  · exact absurd (outdated_eq_false hh).2.2 h
+  · rfl
+
+theorem cacheS_of_cacheV {x : Var} (h : CacheV x) (s : St) : CacheS s x := fun hp => Or.inl (h hp)
+
+/-- `CacheS` of a variable that is not outdated gives the current content -/
+theorem cacheS_current {s : St} {x : Var} (h : CacheS s x) (hp : x.precalc = true)
+    (ha : x.applied = (s.bcs x.bc).content) : x.cache = some (s.bcs x.bc).content := by
+  rcases h hp with e | e
+  · rw [e, ha]
+  · exact absurd ha e
+
+theorem cacheOK_of_cacheInv {s : St} (h : CacheInv s) : CacheOK s := by
+  intro v hv hp ho
+  exact cacheS_current (h v hv) hp (outdated_eq_false ho).2.2
+
+theorem ghostOK_of_ghostInv {s : St} (h : GhostInv s) : GhostOK s := by
+  intro v hv ho
+  have ho := outdated_eq_false ho
+  have := h v hv ho.2.1
+  exact ⟨this.1, this.2.trans ho.2.2⟩
+
+theorem cacheV_applyVar (c : Nat) (x : Var) : CacheV (applyVar c x) := by
+  intro hp
+  have hp' : x.precalc = true := hp
+  simp only [applyVar, hp', if_true]
+
+theorem cacheV_mkVar (s : St) (b i : Nat) (p : Bool) : CacheV (mkVar s b i p) := by
+  intro hp
+  have hp' : p = true := hp
+  simp only [mkVar, hp', if_true]
+
+/-- the four fields `CacheS` looks at -/
+structure Same4 (x y : Var) : Prop where
+  precalc : x.precalc = y.precalc
+  cache : x.cache = y.cache
+  applied : x.applied = y.applied
+  bc : x.bc = y.bc
+
+/-- classification of the live variables after one op from `s` (by `varInv_step`): freshly
+    applied / constructed, or agreeing on the four cache fields with a live variable of `s`, or
+    with the copy just made -/
+def CacheQ (s : St) (op : Op) (x : Var) : Prop :=
+  CacheV x ∨ (∃ u, u < s.nV ∧ Same4 x (s.vars u)) ∨
+    (∃ v, v < s.nV ∧ op = .copy v ∧ Same4 x (copyVar s v))
+
+theorem cacheQ_step (s : St) (op : Op) : VarInv (CacheQ s op) (step s op).1 := by
+  refine varInv_step (P := CacheQ s op) ?_ ?_ ?_ ?_ op ?_ ?_
+  · exact fun c x => Or.inl (cacheV_applyVar c x)
+  · exact fun s' b i p => Or.inl (cacheV_mkVar s' b i p)
+  · intro x n hx
+    rcases hx with h | ⟨u, hu, h⟩ | ⟨v, hv, e, h⟩
+    · exact Or.inl h
+    · exact Or.inr (Or.inl ⟨u, hu, ⟨h.precalc, h.cache, h.applied, h.bc⟩⟩)
+    · exact Or.inr (Or.inr ⟨v, hv, e, ⟨h.precalc, h.cache, h.applied, h.bc⟩⟩)
+  · intro x y hx
+    rcases hx with h | ⟨u, hu, h⟩ | ⟨v, hv, e, h⟩
+    · exact Or.inl h
+    · exact Or.inr (Or.inl ⟨u, hu, ⟨h.precalc, h.cache, h.applied, h.bc⟩⟩)
+    · exact Or.inr (Or.inr ⟨v, hv, e, ⟨h.precalc, h.cache, h.applied, h.bc⟩⟩)
+  · intro v e hv _
+    exact Or.inr (Or.inr ⟨v, hv, e, ⟨rfl, rfl, rfl, rfl⟩⟩)
+  · intro u hu
+    exact Or.inr (Or.inl ⟨u, hu, ⟨rfl, rfl, rfl, rfl⟩⟩)
+
+/-- one-step preservation of `CacheInv`; well-formedness supplies the freshness argument (an
+    edit creates a stamp different from every stored snapshot) -/
+theorem cacheInv_step {s : St} (hwf : WFSt s) (op : Op) (h : CacheInv s) :
+    CacheInv (step s op).1 := by
+  intro w hw
+  rcases cacheQ_step s op w hw with hq | ⟨u, hu, hq⟩ | ⟨v, hv, e, hq⟩
+  · exact cacheS_of_cacheV hq _
+  · intro hp
+    have hx := hwf.vars u hu
+    rw [hq.cache, hq.applied, hq.bc]
+    rcases h u hu (hq.precalc ▸ hp) with e | e
+    · exact Or.inl e
+    · right
+      rcases step_content op hx.bc with c | c
+      · rw [c]; exact e
+      · rw [c]; exact Nat.ne_of_lt hx.applied
+  · subst e
+    intro _
+    rw [hq.cache, hq.applied, hq.bc]
+    have hb : (step s (.copy v)).1.bcs (copyVar s v).bc = s.bcs (s.vars v).bc := by
+      rw [step_copy_bcs hv]; exact if_pos rfl
+    rw [hb]
+    by_cases ha : (s.vars v).applied = (s.bcs (s.vars v).bc).content
+    · left
+      show some (s.bcs (s.vars v).bc).content = some (s.vars v).applied
+      rw [ha]
+    · exact Or.inr ha
+
+theorem ghostV_applyVar (c : Nat) (x : Var) : GhostV (applyVar c x) := fun _ => ⟨rfl, rfl⟩
+theorem ghostV_mkVar (s : St) (b i : Nat) (p : Bool) : GhostV (mkVar s b i p) := fun _ => ⟨rfl, rfl⟩
+
+/-- one-step preservation of the ghost-layer invariant, for EVERY op -/
+theorem ghostInv_step {s : St} (op : Op) (h : GhostInv s) : GhostInv (step s op).1 := by
+  refine varInv_step ghostV_applyVar ghostV_mkVar ?_ ?_ op ?_ h
+  · intro x n _ hv; cases hv
+  · intro x y _ hv; cases hv
+  · intro v _ _ hx hm
+    exact hx hm
+
+theorem preSolve_cache {s : St} {v : Nat} (h : CacheS s (s.vars v)) :
+    ((preSolve s v).vars v).cache = some (s.bcs (s.vars v).bc).content := by
+  unfold preSolve; split
+  · rw [applyBCs_vars', if_pos rfl]; simp only [setVar, ↓reduceIte, applyVar]
+  · next hp =>
+    have hp' : (s.vars v).precalc = true := by simpa using hp
+    split
+    · rw [applyBCs_vars', if_pos rfl]; simp only [applyVar, hp', ↓reduceIte]
+    · next ho =>
+      have ho' : outdated s (s.vars v) = false := by simpa using ho
+      exact cacheS_current h hp' (outdated_eq_false ho').2.2
+
+/-- the output of a solve, given only the cache invariant of `v` -/
+theorem solve_out_of_cacheS {s : St} {v : Nat} (hv : v < s.nV) (h : CacheS s (s.vars v)) :
     (step s (.solve v)).2 = Out.solved (some (s.bcs (s.vars v).bc).content) (s.vars v).interior := by
   rw [step_solve hv]
   simp only [preSolve_cache h, (preSolve_self s v).2.1]
@@ -1075,6 +1142,24 @@ theorem wf_ceState : WFSt ceState := by
     · refine ⟨?_, ?_, ?_, ?_, ?_, ?_⟩ <;> simp [ceState]
     · refine ⟨?_, ?_, ?_, ?_, ?_, ?_⟩ <;> simp [ceState]
 
+
+
+/-! ### the `.copy` BEFORE its repair: the constructor reset `_BCs_applied` and `value.modified`
+    while the ghosted array was copied as it was -/
+
+def stepOldCopy (s : St) : Op → St × Out
+  | .copy v =>
+    if v < s.nV then
+      let x := s.vars v
+      let b := s.bcs x.bc
+      let s1 : St := { setBC s s.nB b with nB := s.nB + 1 }
+      let w : Var := { bc := s.nB, interior := x.interior, ghostI := x.ghostI, ghostB := x.ghostB,
+                       cache := some b.content, applied := b.content, valMod := false, precalc := true }
+      ({ setVar s1 s1.nV w with nV := s1.nV + 1 }, .newVar s1.nV)
+    else (s, .invalid)
+  | o => step s o
+
+def runOldCopy (ops : List Op) : St := ops.foldl (fun s o => (stepOldCopy s o).1) init
 
 /-- a mixed history used by the non-vacuity examples of C09 -/
 def demoHistory : List Op :=
